@@ -14,13 +14,19 @@ type FaultPlan struct {
 	At         int               `json:"at"`   // index of the faultable I/O step (create, prealloc, pwrite, fsync, dir fsync, unlink, metadata commit, stable set, list, load)
 	Kind       simdisk.FaultKind `json:"kind"` // 1 clean, 2 after-effect, 3 short write
 	Persistent bool              `json:"persistent"`
+	// UntilReturn: from the failing step on every I/O step of any kind fails (the device is gone) until the
+	// API call in which it happened returns; after that the device is healthy again.
+	UntilReturn bool `json:"until_return,omitempty"`
 }
 
 func (f FaultPlan) String() string {
-	k := map[simdisk.FaultKind]string{simdisk.FaultClean: "clean", simdisk.FaultAfter: "after-effect", simdisk.FaultShort: "short"}[f.Kind]
+	k := map[simdisk.FaultKind]string{simdisk.FaultClean: "clean", simdisk.FaultAfter: "after-effect", simdisk.FaultShort: "short", simdisk.FaultShortEOF: "short+EOF"}[f.Kind]
 	p := "transient"
 	if f.Persistent {
 		p = "persistent"
+	}
+	if f.UntilReturn {
+		p = "everything-fails-until-the-call-returns"
 	}
 	return fmt.Sprintf("fault@%d/%s/%s", f.At, k, p)
 }
@@ -72,9 +78,18 @@ func RunFault(cfg Config, ops []Op, cont func(m *Model, failed *Op) []Op, fp *Fa
 	d := sys.Disk
 	d.FaultReads = true
 	if fp != nil {
-		d.FaultAt, d.FaultKind, d.FaultPersistent = fp.At, fp.Kind, fp.Persistent
+		d.FaultAt, d.FaultKind, d.FaultPersistent, d.FaultAll = fp.At, fp.Kind, fp.Persistent, fp.UntilReturn
 	}
 	res := vsched.Run(vsched.DefaultChooser{}, 0, false, func() {
+		defer func() {
+			// evaluated when the whole run, including the clean reopens, is over
+			for _, m := range sys.CreateViol {
+				out.Viol = append(out.Viol, Violation{Prop: "C07", Msg: m})
+			}
+			if len(d.CreateExist) > 0 {
+				out.Viol = append(out.Viol, Violation{Prop: "C13", Msg: fmt.Sprintf("segment creation collided with a file that already carries that name (a segment ID was handed out twice): %v", d.CreateExist)})
+			}
+		}()
 		vis := []*Model{NewModel()}
 		dur := []*Model{NewModel()}
 		opened := false
@@ -111,7 +126,7 @@ func RunFault(cfg Config, ops []Op, cont func(m *Model, failed *Op) []Op, fp *Fa
 			if !okLog {
 				bad("%s: WAL shows %s, legal %s", what, o.Sig(), modelSetSig(legal))
 			} else if !okStable {
-				bad("%s: stable store shows %v, legal %s", what, o.Stable, modelSetSig(legal))
+				out.Viol = append(out.Viol, Violation{Prop: "C08", Msg: fmt.Sprintf("%s: stable store shows %v, legal %s", what, o.Stable, modelSetSig(legal))})
 			}
 			return o
 		}
@@ -123,6 +138,9 @@ func RunFault(cfg Config, ops []Op, cont func(m *Model, failed *Op) []Op, fp *Fa
 			}
 			err := sys.Apply(op)
 			vsched.Quiesce()
+			if fp != nil && fp.UntilReturn && d.FaultHit != nil {
+				d.FaultAt, d.FaultAll = -1, false // the device is back
+			}
 			if op.K == "R" && err != nil {
 				opened = false
 				sys.W = nil
@@ -188,9 +206,6 @@ func RunFault(cfg Config, ops []Op, cont func(m *Model, failed *Op) []Op, fp *Fa
 			for i, op := range cont(base, lastFailed) {
 				apply(len(ops)+i+1, op)
 			}
-		}
-		if len(d.CreateExist) > 0 {
-			out.Viol = append(out.Viol, Violation{Prop: "C13", Msg: fmt.Sprintf("segment creation collided with a file that already carries that name (a segment ID was handed out twice): %v", d.CreateExist)})
 		}
 		out.FaultOps = d.FaultOps
 		if d.FaultHit != nil {
